@@ -64,7 +64,7 @@ inline std::string g_run(Tape &t, int maxLen, const char *extra, bool allowPct =
 }
 
 inline std::string g_scheme(Tape &t) {
-  static const std::vector<std::string> pool = {"s", "http", "HTTP", "t", "a+b-c.d", "File", "x1", "Z"};
+  static const std::vector<std::string> pool = {"s", "http", "HTTP", "t", "a+b-c.d", "File", "x1", "Z", "file", "https", "urn", "mailto"};  // incl. names software special-cases
   if (t.chance(3, 4)) return t.pick(pool);
   std::string s(1, g_alpha(t));
   int n = t.range(0, 4);
@@ -96,6 +96,14 @@ inline std::string g_h16(Tape &t) {
 }
 // a valid IPv6address per the nine alternatives
 inline std::string g_ipv6_valid(Tape &t) {
+  // one literal in eight comes from the ranges that software likes to special-case (loopback, unspecified, IPv4-mapped and
+  // -compatible, NAT64, 6to4, Teredo, link-local, multicast, documentation)
+  if (t.chance(1, 8)) {
+    static const std::vector<std::string> known = {"::1", "::", "::ffff:1.2.3.4", "::ffff:c000:221", "::1.2.3.4", "64:ff9b::c000:221", "64:ff9b::192.0.2.33", "64:FF9B::1",
+                                                   "2002:c000:221::1", "2001:0:4136:e378:8000:63bf:3fff:fdd2", "fe80::1", "FE80::a:b", "ff02::1", "ff02::fb", "2001:db8::1", "2001:DB8:0:0:8:800:200C:417A",
+                                                   "100::", "fc00::1", "0:0:0:0:0:ffff:a00:1", "0:0:0:0:0:0:0:0"};
+    return t.pick(known);
+  }
   bool v4tail = t.chance(1, 4);
   int total = v4tail ? 6 : 8;  // number of h16 groups without compression
   auto groups = [&](int n) { std::string s; for (int i = 0; i < n; i++) { if (i) s += ':'; s += g_h16(t); } return s; };
@@ -131,7 +139,9 @@ inline std::string g_ipvfuture(Tape &t) {
 inline std::string g_host(Tape &t, int *kind = nullptr) {
   static const std::vector<std::string> regs = {"h", "example.com", "EXAMPLE.org", "Host", "a.b", "256.1.1.1", "01.2.3.4",
                                                 "1.2.3", "1.2.3.4.5", "1.2.3.4a", "ex%41mple", "ex%c3%a4", "h%3a", "x-y_z~", "v1.a", "vF.x",
-                                                "%31.2.3.4", "1%2E2.3.4", "10.0.0.%32%35%35", "%32%35%36.1.1.1"};  // dotted quads only after percent-decoding
+                                                "%31.2.3.4", "1%2E2.3.4", "10.0.0.%32%35%35", "%32%35%36.1.1.1",  // dotted quads only after percent-decoding
+                                                "%3192.168.100.200", "%32%35%35.255.255.255", "%31%32%37.%30.%30.%31", "%31%2E%32%2E%33%2E%34", "0.0.0.%30", "1.2.3.%34", "%31%30.20.30.40",  // ... of every length from 7 to 15
+                                                "localhost", "LOCALHOST", "locations", "localhos", "localhost.", "%20Host", "a%2FB", "%41", "%7e", "%7b"};  // names software special-cases; a capital right behind a kept escape; one lone escape
   int k = t.weighted({6, 2, 3, 3, 1});
   int kk = 1;
   std::string s;
